@@ -11,6 +11,7 @@ pub mod c14;
 pub mod c11;
 pub mod refastro;
 pub mod e2e;
+pub mod e2e2;
 
 pub struct Report {
     pub name: String,
@@ -90,6 +91,10 @@ pub fn main() {
         "c20_zones" => e2e::c20_zones(&args),
         "c16_qibla" => e2e::c16_qibla(&args),
         "c09_neargood" => e2e::c09_neargood(&args),
+        "c07_e2e" => e2e2::c07_e2e(&args),
+        "c08_e2e" => e2e2::c08_e2e(&args),
+        "c10_formulas" => e2e2::c10_formulas(&args),
+        "c12_params" => e2e2::c12_params(&args),
         other => {
             eprintln!("unknown check {}", other);
             std::process::exit(2);
